@@ -308,6 +308,15 @@ fn data_case(reg: Reg, front: Front, dslot: Option<usize>, off: Option<u8>, dcla
     };
     cmds.extend(rx_timing_setup_req(del));
     let t = link.deliver_mac(&cmds, rng.bool(), rng.bool());
+    // RXTimingSetupReq has no status bits: once the downlink is accepted the delay in force is
+    // the commanded one (0 and 1 both mean 1 s)
+    if matches!(t.resp, Resp::DownlinkReceived(_)) {
+        let want = if del < 2 { 1000 } else { del as u32 * 1000 };
+        let got = link.dev.snapshot().rx1_delay;
+        if got != want {
+            col.violation(&format!("C10|rx-delay-not-as-commanded|del={}", if del == 15 { "15".to_string() } else if del < 2 { "0-1".to_string() } else { "2-14".to_string() }), "the RX1 delay in force differs from the RXTimingSetupReq that was accepted", json!({"region": reg.name(), "front": front.name(), "commanded_del": del, "in_force_ms": got}));
+        }
+    }
     if let Resp::Panic(m, l) = &t.resp {
         col.violation(&format!("C10|panic|{}|{}", reg.name(), short_loc(l)), "device panicked while parameters were set up", json!({"msg": m, "loc": l, "cmds": hex(&cmds)}));
         return;
